@@ -100,6 +100,58 @@ def valid_call(rng, cls, env, res="T"):
     return (res, cls.name, args)
 
 
+def eems2_faults(ctx, model, tmp, env, classes):
+    """the same well-formedness rules hold for files in EEMS 2.0 syntax (and mixed files): duplicate result names (given through NewFieldName
+    or by the input field) and unknown commands are rejected with the line of the offending command, before anything runs"""
+    from . import c16
+    from ..common import enc_str
+    rng = ctx.rng
+    tbl = c16.table()
+    by_name = dict((c.name, c) for c in classes)
+    tenc = "%d %s" % (len(tbl), " ".join("%s %s" % (enc_str(k), enc_str(v)) for k, v in tbl.items()))
+    items = []
+    for _ in range(ctx.budget(12, 400)):
+        try:
+            v2, v3, names = c16.gen_model(rng, env, {k: v for k, v in tbl.items() if v in by_name}, by_name)
+        except KeyError:
+            continue
+        j = rng.randrange(len(v2))
+        kind = rng.choice(["duplicate", "duplicate", "unknown"])
+        if kind == "duplicate":
+            # a later command delivering a result name that is already taken
+            dup = names[rng.randrange(j + 1)]
+            style = rng.choice(["v2", "mpilot"])
+            src_res = v2[0][2]
+            if style == "v2":
+                bad = (None, "READ", [("InFileName", env["in"]), ("InFieldName", Name("a")), ("NewFieldName", Name(dup))])
+            else:
+                bad = (dup, "EEMSRead", [("InFileName", env["in"]), ("InFieldName", Name("a"))])
+            c2 = v2[:j + 1] + [bad] + v2[j + 1:]
+            err = "DuplicateResult"
+        else:
+            bad = (None, "NOSUCHCOMMAND", [("InFieldName", Name(names[0])), ("NewFieldName", Name("Zz"))])
+            c2 = v2[:j + 1] + [bad] + v2[j + 1:]
+            err = "CommandDoesNotExist"
+        sc = Scenario(c2, wd=tmp, libs=LIBS)
+        items.append((sc, err, sc.lines[j + 1][0], kind))
+    lines = ["load %s %s %d %s %s 1 run" % (prog.enc_env(tmp, sc.existing_paths()), tenc, len(classes), " ".join(prog.enc_decl(c) for c in classes), enc_str(sc.source))
+             for sc, _, _, _ in items]
+    for (sc, err, line, kind), ans in zip(items, model.ask(lines)):
+        res = progrun.run_impl(sc)
+        outcome = res["load"] if res["load"] != "ok" else res["ops"][0]
+        ctx.case(sc.source, sample={"kind": "eems2-" + kind, "source": sc.source[-400:], "impl": outcome, "model": ans[:120]})
+        ctx.count("kind:eems2-" + kind)
+        if "OutsideModel" in ans:
+            ctx.count("outside_model_domain")
+        elif not ans.startswith("load " + outcome):
+            ctx.disagree("load:eems2-fault", sc.describe(), "load " + outcome, ans[:300])
+        want = "mp:%s:%s" % (err, line)
+        if outcome != want:
+            ctx.fail("ill-formed EEMS 2.0 model (%s): %s, expected %s" % (kind, "accepted" if outcome == "ok" else "reported " + outcome, want), sc.describe())
+        if res["log"] or res["effects"]:
+            ctx.fail("ill-formed EEMS 2.0 model (%s): rejected only after executing %r" % (kind, res["log"]), sc.describe())
+
+
 def run(ctx):
     ctx.check_proofs(["MPilot.Props.C12"])
     model = common.Model()
@@ -164,6 +216,23 @@ def run(ctx):
             c2 = [("Eff", "W", [])] + list(cmds) + [("Bad", "S", [("Req", "not a number")])]
             sc = Scenario(c2, wd=tmp, libs=LIBS)
             scs.append((sc, ("ParameterNotValid", sc.lines[-1][1][0]), kind))
+    # models extended through add_command after a successful run: the additions are validated like everything else, before anything executes
+    ext = []
+    for _ in range(ctx.budget(10, 300)):
+        cmds = producers(env) + [("T0", "N", [("One", Name("Tok"))])]
+        good = ("Eff", "W", [("Data", Name("Rd"))] if rng.random() < 0.5 else [])
+        fault, err = rng.choice([
+            (("Bad", "S", [("Req", "not a number")]), "ParameterNotValid"),
+            (("Bad", "N", [("One", "NoSuchResult")]), "ResultDoesNotExist"),
+            (("Bad", "D", [("Data", "Fz")]), "ResultIsFuzzy"),
+            (("Bad", "F", [("FData", "Rd")]), "ResultNotFuzzy"),
+            (("Bad", "S", [("Req", 1), ("PathIn", "missing_file.csv")]), "PathDoesNotExist"),
+            (("Bad", "D", [("Data", "Tok")]), "ParameterNotValid"),      # the producer has finished: its actual result is checked
+        ])
+        order = [good, fault] if rng.random() < 0.7 else [fault, good]
+        ops = [("run",)] + [("add", c) for c in order] + [("run",)]
+        sc = Scenario(cmds, ops=ops, wd=tmp, libs=LIBS)
+        ext.append((sc, err))
     # producer / consumer pairings
     prods = {"Rd": "data", "Fz": "fuzzy", "Tok": "token", "Wr": "bool"}
     for pname in prods:
@@ -203,6 +272,21 @@ def run(ctx):
                 ctx.fail("ill-formed model (%s): reported %s, expected %s" % (tag, outcome, want), sc.describe())
             if res["log"] or res["effects"] or any(f.startswith("out_") or f in ("o.csv",) for f in os.listdir(tmp)):
                 ctx.fail("ill-formed model (%s): rejected only after executing %r (effects %r)" % (tag, res["log"], res["effects"]), sc.describe())
+    for (sc, err), ans in zip(ext, model.ask([sc.protocol(classes) for sc, _ in ext])):
+        res = progrun.run_impl(sc)
+        ctx.case(sc.source + repr(sc.ops), sample={"kind": "api-extension", "ops": repr(sc.ops)[:300], "impl": progrun.impl_text(res)[:200], "model": ans[:200]})
+        ctx.count("kind:api-extension")
+        d = progrun.compare(res, ans)
+        if d:
+            ctx.disagree("load+prepass:api-extension", sc.describe(), d[0][:400], d[1][:400])
+        if res["load"] != "ok" or res["ops"][:-1] != ["ok"] * (len(sc.ops) - 1):
+            ctx.fail("api-extension: the well-formed part failed: %s %s" % (res["load"], res["ops"]), sc.describe())
+        elif res["ops"][-1] != "mp:%s:~" % err and not res["ops"][-1].startswith("mp:%s:" % err):
+            ctx.fail("a faulty command added through add_command after a successful run: run() gave %s, expected %s" % (res["ops"][-1], err), sc.describe())
+        elif "Eff" in res["effects"] or "+Eff" in res["log"] or "+Bad" in res["log"]:
+            ctx.fail("a faulty command added through add_command after a successful run is rejected (%s) only after executing %r" % (
+                err, [e for e in res["log"] if e[1:] in ("Eff", "Bad")]), sc.describe())
+    eems2_faults(ctx, model, tmp, env, classes)
     return ctx.finish(
         rule="scenarios = producers (EEMSRead, CvtToFuzzy, opaque) + one call of each of the %d command classes with valid arguments, then the same "
              "with each parameter replaced by each wrong kind of value / removed / an undeclared parameter added; unknown command, duplicate result, "
